@@ -231,6 +231,8 @@ STATEMENTS = {
     'named': ('SELECT account, count(*) AS n WHERE account ~ %(pat)s AND year = %(y)s GROUP BY account ORDER BY account', {'pat': 'Expenses', 'y': 2020}),
     'open-close': ('SELECT account, sum(position) AS s FROM OPEN ON 2019-07-01 CLOSE ON 2020-07-01 CLEAR GROUP BY account ORDER BY account', None),
     'close': ('SELECT account, balance FROM CLOSE ON 2020-03-01 WHERE account ~ "Assets"', None),
+    'open-close-rows': ('SELECT date, narration, account, position, balance FROM OPEN ON 2019-07-01 CLOSE ON 2020-07-01 CLEAR', None),
+    'close-count': ('SELECT year, count(*) AS n, sum(position) AS s FROM CLOSE ON 2020-03-01 GROUP BY year ORDER BY year', None),
     'balances': ('BALANCES AT cost FROM year = 2020', None),
     'journal': ('JOURNAL "Cash"', None),
     'distinct': ('SELECT DISTINCT payee, flag ORDER BY payee, flag', None),
@@ -239,7 +241,7 @@ STATEMENTS = {
 }
 PAIRS = [('bal2', 'bal1'), ('bal2', 'bal3'), ('bal3', 'subq-in'), ('units-bal', 'journal'), ('agg', 'agg-year'), ('agg', 'agg'), ('subq-from', 'subq-in'),
          ('param-a', 'param-b'), ('named', 'param-a'), ('open-close', 'close'), ('open-close', 'bal2'), ('balances', 'journal'), ('distinct', 'entries'),
-         ('pivot', 'agg'), ('bal2', 'bal2'), ('close', 'bal1')]
+         ('pivot', 'agg'), ('bal2', 'bal2'), ('close', 'bal1'), ('open-close', 'open-close-rows'), ('close', 'close-count'), ('open-close', 'open-close')]
 
 
 def make_job(conn, text_or_ast, params):
@@ -268,7 +270,30 @@ def same_outcome(a, b):
     return a[1] == b[1]
 
 
+class _Jobs:
+    """The jobs of a pair: alternately on connections opened for this schedule alone ("cold": first use happens under the
+    schedule) and on connections that have already served earlier schedules ("warm")."""
+
+    def __init__(self, make_jobs, ctx):
+        self.make_jobs = make_jobs
+        self.warm = make_jobs()
+        self.n = 0
+        self.ctx = ctx
+
+    def __len__(self):
+        return len(self.warm)
+
+    def next(self):
+        self.n += 1
+        if self.n % 2:
+            self.ctx.count('obs.schedules_on_new_connections')
+            return self.make_jobs()
+        return self.warm
+
+
 def check_schedule(ctx, jobs, serial, segments, rng, p_switch, label, case, line_points=False):
+    if isinstance(jobs, _Jobs):
+        jobs = jobs.next()
     results, sched = run_schedule(jobs, segments, rng, p_switch, line_points)
     mon = monitors.MON
     ctx.count('obs.schedules_executed')
@@ -299,35 +324,42 @@ def check_schedule(ctx, jobs, serial, segments, rng, p_switch, label, case, line
 
 
 def build_pair(ctx, rng, pi, mode):
-    """-> (jobs, label, case) for pair index pi in connection mode 'shared' | 'separate' | 'different'."""
+    """-> (make_jobs, label, case) for pair index pi in connection mode 'shared' | 'separate' | 'different'.
+    make_jobs() opens NEW connections: whatever a connection derives lazily on first use (period views, caches) is then
+    derived inside the schedule, by whichever thread gets there first."""
     a, b = PAIRS[pi % len(PAIRS)]
     led = ledgers.gen_ledger(rng, ntxn=rng.randint(3, ctx.pick(5, 8)), with_queries=False)
-    conn1 = engine.connection(ledger=led.loaded)
-    if mode == 'shared':
-        conn2 = conn1
-    elif mode == 'separate':
-        conn2 = engine.connection(ledger=led.loaded)
-    else:
-        led2 = ledgers.gen_ledger(rng, ntxn=rng.randint(3, 6), with_queries=False)
-        conn2 = engine.connection(ledger=led2.loaded)
+    led2 = ledgers.gen_ledger(rng, ntxn=rng.randint(3, 6), with_queries=False) if mode == 'different' else None
     (ta, pa), (tb, pb) = STATEMENTS[a], STATEMENTS[b]
-    sa, sb = ta, tb
-    shared_ast = False
-    if a.startswith('param') and b.startswith('param') and mode == 'shared' and rng.random() < 0.7:
-        # the same parsed statement object executed by both threads
-        sa = sb = conn1.parse(ta)
-        shared_ast = True
-    jobs = [make_job(conn1, sa, pa), make_job(conn2, sb, pb)]
+    shared_ast = a.startswith('param') and b.startswith('param') and mode == 'shared' and rng.random() < 0.7
+
+    def make_jobs():
+        conn1 = engine.connection(ledger=led.loaded)
+        if mode == 'shared':
+            conn2 = conn1
+        elif mode == 'separate':
+            conn2 = engine.connection(ledger=led.loaded)
+        else:
+            conn2 = engine.connection(ledger=led2.loaded)
+        sa, sb = ta, tb
+        if shared_ast:
+            # the same parsed statement object executed by both threads
+            sa = sb = conn1.parse(ta)
+        return [make_job(conn1, sa, pa), make_job(conn2, sb, pb)]
     label = f'{a}||{b}/{mode}' + ('/shared-ast' if shared_ast else '')
     case = {'pair': [a, b], 'mode': mode, 'statements': [ta, tb], 'params': [repr(pa), repr(pb)], 'ledger': led.text}
-    return jobs, label, case
+    return make_jobs, label, case
 
 
 def explore_pair(ctx, pi, mode):
     rng = ctx.rng('pair', pi, mode)
-    jobs, label, case = build_pair(ctx, rng, pi, mode)
+    make_jobs, label, case = build_pair(ctx, rng, pi, mode)
     case['replay'] = ['pair', pi, mode]
-    serial = [outcome_of(j) for j in jobs]
+    # serial reference: every statement alone on a connection of its own
+    serial = []
+    for i in range(2):
+        serial.append(outcome_of(make_jobs()[i]))
+    jobs = _Jobs(make_jobs, ctx)
     # zero pre-emption schedules, both orders; they also count the points of each thread
     s01 = check_schedule(ctx, jobs, serial, [(0, None), (1, None)], None, 0, label, case)
     s10 = check_schedule(ctx, jobs, serial, [(1, None), (0, None)], None, 0, label, case)
@@ -365,7 +397,7 @@ def explore_pair(ctx, pi, mode):
             check_schedule(ctx, jobs, serial, None, srng, srng.choice([0.005, 0.02]), label + '/lines', case, line_points=True)
             ctx.count('obs.line_granular_schedules')
     # the serial results are unchanged after the concurrent phase
-    after = [outcome_of(j) for j in jobs]
+    after = [outcome_of(j) for j in jobs.warm]
     if any(not same_outcome(x, y) for x, y in zip(serial, after)):
         ctx.violation('c20.serial_result_changed', f'{label}: serial results before and after the concurrent phase differ', case)
     if len(ctx.samples) < 3:
@@ -374,33 +406,43 @@ def explore_pair(ctx, pi, mode):
 
 
 def stress(ctx):
-    """Un-scheduled phase: 8 free-running threads with a tiny switch interval; only M4 and result comparison decide."""
+    """Un-scheduled phase: 8 free-running threads with a tiny switch interval; only M4 and result comparison decide.
+    Half of the rounds run on a connection opened for that round (nothing derived yet), half on one long-lived connection."""
     rng = ctx.rng('stress')
     led = ledgers.gen_ledger(rng, ntxn=12, with_queries=False)
-    conn = engine.connection(ledger=led.loaded)
-    names = ['bal2', 'bal3', 'agg', 'subq-in', 'param-a', 'open-close', 'journal', 'units-bal']
-    jobs = [make_job(conn, *STATEMENTS[n]) for n in names]
-    serial = [outcome_of(j) for j in jobs]
+    names = ['bal2', 'bal3', 'agg', 'subq-in', 'param-a', 'open-close', 'journal', 'units-bal', 'open-close-rows', 'close', 'close-count', 'open-close']
+    serial = [outcome_of(make_job(engine.connection(ledger=led.loaded), *STATEMENTS[n])) for n in names]
+    long_lived = engine.connection(ledger=led.loaded)
     old = sys.getswitchinterval()
     sys.setswitchinterval(1e-6)
     mon = monitors.MON
     mon.reset()
     problems = []
+    rounds = ctx.pick(12, 150)
     try:
-        def worker(i):
-            for _ in range(ctx.pick(12, 150)):
+        for rnd in range(rounds):
+            conn = long_lived if rnd % 2 else engine.connection(ledger=led.loaded)
+            jobs = [make_job(conn, *STATEMENTS[n]) for n in names]
+            barrier = threading.Barrier(len(jobs))
+
+            def worker(i, jobs=jobs, barrier=barrier):
+                try:
+                    barrier.wait(30)
+                except threading.BrokenBarrierError:
+                    return
                 r = outcome_of(jobs[i])
                 if not same_outcome(r, serial[i]):
                     problems.append((i, r))
-                    return
-        threads = [threading.Thread(target=worker, args=(i,), daemon=True) for i in range(len(jobs))]
-        for t in threads:
-            t.start()
-        for t in threads:
-            t.join(120)
+            threads = [threading.Thread(target=worker, args=(i,), daemon=True) for i in range(len(jobs))]
+            for t in threads:
+                t.start()
+            for t in threads:
+                t.join(120)
+            if problems:
+                break
     finally:
         sys.setswitchinterval(old)
-    ctx.count('obs.stress_statements', len(jobs) * ctx.pick(12, 150))
+    ctx.count('obs.stress_statements', len(names) * rounds)
     case = {'statements': [STATEMENTS[n][0] for n in names], 'ledger': led.text}
     if mon.balance_violations:
         ctx.violation('c20.balance_added_twice_in_a_row', f'stress phase: {mon.balance_violations[0]}', case)
@@ -478,7 +520,7 @@ def finalize(merged):
     reasons = []
     if c.get('inconclusive.scheduler_stuck', 0):
         reasons.append(f"scheduler watchdog fired {c['inconclusive.scheduler_stuck']} time(s)")
-    for k in ('obs.schedules_executed', 'obs.one_preemption_schedules', 'obs.random_schedules', 'obs.context_switches', 'obs.stress_statements'):
+    for k in ('obs.schedules_executed', 'obs.schedules_on_new_connections', 'obs.one_preemption_schedules', 'obs.random_schedules', 'obs.context_switches', 'obs.stress_statements'):
         if c.get(k, 0) == 0:
             reasons.append(f'{k} == 0')
     if c.get('obs.rows_with_interleaved_balance_evaluations', 0) == 0:
